@@ -950,9 +950,9 @@ fn known_streams(c: &mut Ctx) {
         let targets = vec![(15, 0)];
         let hz = analyse(&doc, &targets);
         let fields: Vec<&str> = if kind < 4 || (6..=9).contains(&kind) { vec!["outl", "toc"] } else if kind == 4 || kind == 10 { vec!["dests", "nd:15_0", "outl"] } else { vec!["dests", "toc"] };
-        for f in fields {
+        for (fi, f) in fields.into_iter().enumerate() {
             let req = request(&format!("one={}", f), &targets, &doc);
-            if f == "outl" || f == "dests" { c.nontrivial(&req); } c.count(&format!("cyclic.kind{}", kind));
+            if fi == 0 { c.nontrivial(&req); } c.count(&format!("cyclic.kind{}", kind));
             batch.push(Pending { case_id: c.cur, stream: "cyclic".into(), req, doc_targets: targets.clone(), hazard: hz.clone() }); docs.push(doc.clone());
         }
     }
